@@ -3132,8 +3132,9 @@ def per_mode(chk):
     neumann_tables(chk, fn_init)
     membership_order(chk)
     # the derived solver's m=0 operator is built from the same blocks (their signs are this class's convention)
-    from .C15 import m0_operator
+    from .C15 import m0_operator, operator_storage
     m0_operator(chk)
+    operator_storage(chk)
     mode_power(chk)
     # per-mode operator and Dirichlet reset inside the loop, before the solve
     for cls, m, callee in entry_points(chk):
@@ -3282,6 +3283,7 @@ def per_mode(chk):
             chk.ob("F4-mode-operator", lp, f"{cls}.{m}: operator of mode I", None, "restriction of the operator not followed: " + und[0],
                    file=U.POISSON, func=f"{cls}.{m}")
     mode_solve(chk)
+    line_buffers(chk)
     output_complete(chk)
     carried_state(chk)
 
@@ -3374,6 +3376,179 @@ def entry_points(chk):
         out.append((cls, m, callee))
     cache.append(out)
     return out
+
+
+def _single_output_buffer(chk, spline_cls="Spline1D", interp_cls="SplineInterpolator1D"):
+    """Is `<spline>.coeffs` ONE array for the whole life of the spline, which `<interpolator>.compute_interpolant(values, <spline>)`
+    overwrites in place?  (True / None, reason).  Established from the two classes, never assumed:
+      * the spline's `coeffs` is a property that returns one attribute of the object, which is bound in __init__ only (and has no setter);
+      * compute_interpolant never rebinds an attribute of its spline parameter, and stores into elements of `<spline>.coeffs` - directly
+        or in the helpers of its class that receive `<spline>.coeffs` as an argument and only store into its elements."""
+    try:
+        smod, imod = chk.mod(U.SPLINES), chk.mod(U.INTERP)
+        scls = smod.cls(spline_cls)
+        ci = chk.func(U.INTERP, f"{interp_cls}.compute_interpolant")
+        helpers = imod.methods(interp_cls)
+    except AnalysisError as e_:
+        return None, str(e_)
+    props = [m_ for m_ in scls.body if isinstance(m_, ast.FunctionDef) and m_.name == "coeffs"]
+    if len(props) != 1 or [src(d) for d in props[0].decorator_list] != ["property"]:
+        return None, f"`coeffs` of {spline_cls} is not a read-only property"
+    body = [s_ for s_ in props[0].body if not (isinstance(s_, ast.Expr) and isinstance(s_.value, ast.Constant))]
+    if len(body) != 1 or not isinstance(body[0], ast.Return) or not (
+            isinstance(body[0].value, ast.Attribute) and isinstance(body[0].value.value, ast.Name) and body[0].value.value.id == "self"):
+        return None, f"the property `coeffs` of {spline_cls} does not simply return an attribute of the object"
+    attr = body[0].value.attr
+    for m_ in scls.body:
+        if not isinstance(m_, ast.FunctionDef):
+            continue
+        for n in ast.walk(m_):
+            if isinstance(n, ast.Attribute) and n.attr == attr and isinstance(n.ctx, (ast.Store, ast.Del)) and m_.name != "__init__":
+                return None, f"{spline_cls}.{m_.name} rebinds `{attr}`"
+            if isinstance(n, ast.Call) and src(n.func) in ("setattr", "delattr"):
+                return None, f"{spline_cls}.{m_.name} uses setattr"
+    if scls.bases and [src(b) for b in scls.bases] != ["object"]:
+        return None, f"{spline_cls} has base classes: not followed"
+    a = ci.args
+    if a.vararg or a.kwarg or len(a.args) != 3:
+        return None, "the signature of compute_interpolant is not (self, values, spline)"
+    sp_ = a.args[2].arg
+    if any(isinstance(n, ast.Name) and n.id == sp_ and isinstance(n.ctx, ast.Store) for n in ast.walk(ci)):
+        return None, f"compute_interpolant rebinds its parameter `{sp_}`"
+    if any(isinstance(n, ast.Attribute) and isinstance(n.ctx, ast.Store) and isinstance(n.value, ast.Name) and n.value.id == sp_
+           for n in ast.walk(ci)):
+        return None, f"compute_interpolant rebinds an attribute of `{sp_}`"
+    out_ = f"{sp_}.coeffs"
+
+    def stores_into(fn_, name_txt, depth=0):
+        """True when the function stores into elements of the array `name_txt` on some path and never rebinds that name"""
+        hit = False
+        for n in ast.walk(fn_):
+            if isinstance(n, ast.Subscript) and isinstance(n.ctx, ast.Store) and src(n.value) == name_txt:
+                hit = True
+        return hit
+    direct = stores_into(ci, out_)
+    passed = []
+    for c in ast.walk(ci):
+        if isinstance(c, ast.Call) and any(src(x) == out_ for x in list(c.args) + [k.value for k in c.keywords]):
+            passed.append(c)
+    via = []
+    for c in passed:
+        if not (isinstance(c.func, ast.Attribute) and isinstance(c.func.value, ast.Name) and c.func.value.id == "self"
+                and c.func.attr in helpers) or c.keywords or any(isinstance(x, ast.Starred) for x in c.args):
+            return None, f"compute_interpolant hands `{out_}` to `{src(c.func)}`: not followed"
+        h = helpers[c.func.attr]
+        formals = [x.arg for x in h.args.args][1:]
+        k = next(k_ for k_, x in enumerate(c.args) if src(x) == out_)
+        if h.args.vararg or h.args.kwarg or k >= len(formals):
+            return None, f"the parameters of `{c.func.attr}` were not bound"
+        p_ = formals[k]
+        if any(isinstance(n, ast.Name) and n.id == p_ and isinstance(n.ctx, ast.Store) for n in ast.walk(h)):
+            return None, f"`{c.func.attr}` rebinds its parameter `{p_}`"
+        via.append(stores_into(h, p_))
+    if not direct and not (via and all(via)):
+        return None, f"no store into the elements of `{out_}` was found in compute_interpolant / its helpers"
+    return True, (f"`{spline_cls}.coeffs` returns the one array `self.{attr}` allocated by the constructor, and "
+                  f"{interp_cls}.compute_interpolant stores the new coefficients into its elements")
+
+
+def line_buffers(chk):
+    """F4-line-buffer: the coefficients of rho of a line are consumed before the interpolation of the next line overwrites them.
+    The interpolator fills ONE output array (the spline's coefficients) in place; a reference to that array kept in a list / dict
+    across the iterations of the z loop and read after the loop denotes, for every line, the coefficients of the LAST line."""
+    eps = entry_points(chk)
+    disc = next((cl for c_, m_, cl in eps if c_ == CLS and m_ == "solveEquation"), "_solveMode")
+    q = f"{CLS}.{disc}"
+    sm = solve_view(chk, disc, CLS, "solveEquation")
+    env = env_of(chk, sm)
+    fn_init = flat_view(chk, U.POISSON, CLS, "__init__")
+    found, emitted = False, 0
+    for c in ast.walk(sm):
+        if not (isinstance(c, ast.Call) and isinstance(c.func, ast.Attribute) and c.func.attr == "compute_interpolant" and len(c.args) == 2
+                and not c.keywords):
+            continue
+        wst = _stmt_of(c)
+        loops = env._loops(wst)
+        if not loops:
+            continue
+        found = True
+        lp = loops[-1]          # the outermost loop around the interpolation: nothing collected in it survives as a fresh array
+        obj = src(env.x(c.args[1], use=wst))
+        buf = obj + ".coeffs"
+        in_loop = {id(x) for x in ast.walk(lp)}
+        # references to the output array stored into a container inside the loop
+        kept = []
+        for s_ in ast.walk(lp):
+            if not isinstance(s_, ast.stmt):
+                continue
+            vals = []
+            if isinstance(s_, ast.Expr) and isinstance(s_.value, ast.Call) and isinstance(s_.value.func, ast.Attribute) and \
+                    s_.value.func.attr in ("append", "insert", "appendleft") and isinstance(s_.value.func.value, ast.Name) and s_.value.args:
+                vals.append((s_.value.func.value.id, s_.value.args[-1]))
+            elif isinstance(s_, ast.AugAssign) and isinstance(s_.op, ast.Add) and isinstance(s_.target, ast.Name) and \
+                    isinstance(s_.value, (ast.List, ast.Tuple)):
+                vals += [(s_.target.id, e_) for e_ in s_.value.elts]
+            elif isinstance(s_, ast.Assign) and len(s_.targets) == 1 and isinstance(s_.targets[0], ast.Subscript) and \
+                    isinstance(s_.targets[0].value, ast.Name):
+                vals.append((s_.targets[0].value.id, s_.value))
+            for name_, v_ in vals:
+                ex = env.x(v_, use=s_)
+                b_ = ex
+                while isinstance(b_, ast.Subscript) and (isinstance(b_.slice, ast.Slice) or (
+                        isinstance(b_.slice, ast.Tuple) and all(isinstance(x, ast.Slice) for x in b_.slice.elts))):
+                    b_ = b_.value           # a basic slice of the array is a view of it
+                if src(b_) == buf and isinstance(b_, ast.Attribute):
+                    kept.append((s_, name_, ex))
+        for s_, name_, ex in kept:
+            # the container is a Python list / dict created in this method (storing a reference does not copy; an element store
+            # into a numpy array would)
+            defs = env.bind.get(name_, [])
+            is_ref_container = len(defs) == 1 and defs[0][2] is not None and id(defs[0][1]) not in in_loop and (
+                (isinstance(defs[0][2], (ast.List, ast.Dict)) and not (getattr(defs[0][2], "elts", None) or getattr(defs[0][2], "keys", None)))
+                or (isinstance(defs[0][2], ast.Call) and src(defs[0][2].func) in ("list", "dict") and not defs[0][2].args
+                    and not defs[0][2].keywords))
+            later = [n for n in ast.walk(sm) if isinstance(n, ast.Name) and n.id == name_ and isinstance(n.ctx, ast.Load)
+                     and id(n) not in in_loop and env.order.get(id(_stmt_of(n)), -1) > env.order.get(id(lp), 10 ** 9)]
+            # read as a whole (handed to a call, iterated) or at a varying position: more than the last element is used
+            whole = [n for n in later if isinstance(parent(n), (ast.Call, ast.For, ast.comprehension, ast.Starred)) and
+                     not (isinstance(parent(n), ast.Call) and src(parent(n).func) == "len")
+                     or (isinstance(parent(n), ast.Subscript) and parent(n).value is n and not isinstance(parent(n).slice, ast.Constant)
+                         and not isinstance(parent(n).slice, ast.UnaryOp))]
+            ok_c, why_c = _single_output_buffer(chk)
+            # the spline and the interpolator of the solver are objects of those two classes
+            kinds = {}
+            for role, attr_ in (("spline", obj), ("interp", src(c.func.value))):
+                d_ = [n for n in ast.walk(fn_init) if isinstance(n, ast.Assign) and any(src(t) == attr_ for t in n.targets)]
+                kinds[role] = src(d_[0].value.func).split(".")[-1] if len(d_) == 1 and isinstance(d_[0].value, ast.Call) else None
+            typed = kinds["spline"] == "Spline1D" and kinds["interp"] == "SplineInterpolator1D"
+            construct = f"{disc}: `{name_}` collects `{src(ex)[:40]}` for every line"
+            if not later:
+                continue
+            if isinstance(s_, ast.Assign) and len(defs) == 1 and defs[0][2] is not None and _shape_only(defs[0][2]):
+                continue            # an element / slice store into a freshly allocated numpy array copies the values
+            emitted += 1
+            if not (is_ref_container and whole and typed and ok_c):
+                why = ("the container is not a list / dict created empty in this method" if not is_ref_container else
+                       "how the collected references are read after the loop was not followed" if not whole else
+                       f"`{obj}` / its interpolator are not recognised as Spline1D / SplineInterpolator1D objects" if not typed else why_c)
+                chk.ob("F4-line-buffer", s_, construct, None,
+                       f"a reference to the interpolator's output `{buf}` is kept across the iterations of the loop over the lines; " + why,
+                       file=U.POISSON, func=q)
+                continue
+            # AUDIT: true of the code when (checked above) the value stored is the output array itself or a basic slice of it - no
+            # copy, no arithmetic -, the container holds references (a list / dict created empty before the loop), the interpolation
+            # that refills the array is in the same loop, the array is one object that compute_interpolant overwrites in place
+            # (established from the spline and interpolator classes), and the container is read as a whole after the loop.  The loop
+            # runs over the lines of the local block: more than one for any grid with several local z positions.
+            chk.ob("F4-line-buffer", s_, construct, False,
+                   f"`{name_}` receives `{src(ex)[:40]}` in every iteration of `{src(lp).splitlines()[0][:60]}`, and is read after the loop "
+                   f"(`{src(_stmt_of(whole[0])).splitlines()[0][:70]}`). {why_c}: every element of `{name_}` is the SAME array, which holds "
+                   "the coefficients of the last line interpolated - all lines (z positions) of the mode are solved with the right-hand "
+                   "side of the last one. Each line no longer gets the Galerkin solution of its own rho (visible as soon as rho differs "
+                   "between the z positions of a process). A copy per line (`.copy()`) is needed", file=U.POISSON, func=q)
+    if found and not emitted:
+        chk.ob("F4-line-buffer", sm, f"{disc}: the coefficients of rho of a line are used before the next interpolation", True,
+               "no reference to the interpolator's output array is collected across the lines", file=U.POISSON, func=q)
 
 
 def mode_solve(chk):
@@ -4004,6 +4179,75 @@ def _bare_list(e):
     return src(e)
 
 
+def _refusal_path(atoms, left_amb, loopvars, mt, selection):
+    """one conjunction guarding a raise of the constructor: ("ok" | "bad" | "m0" | None, diagnosis for "m0", notes, does it concern the
+    Neumann lists at all?)"""
+    null_pos = null_neg = False
+    lists = set()
+    extras = []
+    notes = []
+    m_tests = []
+    for e, pol in atoms:
+        if isinstance(e, ast.Call) and src(e.func) == "self.funcIsNull" and len(e.args) == 1 and src(e.args[0]) == "rFactor":
+            null_pos |= pol
+            null_neg |= not pol
+            continue
+        if pol and isinstance(e, ast.Compare) and len(e.ops) == 1 and isinstance(e.ops[0], ast.In) and isinstance(e.left, ast.Name) \
+                and e.left.id in loopvars and _bare_list(e.comparators[0]) in NEUMANN_LISTS:
+            # raise inside a loop over the modes / over one of the lists
+            it = loopvars[e.left.id]
+            lists.add(_bare_list(e.comparators[0]))
+            if _bare_list(it) in NEUMANN_LISTS:
+                lists.add(_bare_list(it))
+            elif not mt._tracked_in(it):
+                extras.append(f"loop over `{src(it)[:40]}`")
+            continue
+        B = _nonempty_of(e, pol)
+        if B is None:
+            extras.append(src(e)[:60])
+            continue
+        if isinstance(B, (ast.ListComp, ast.SetComp, ast.GeneratorExp)) and len(B.generators) == 1 and isinstance(B.generators[0].target, ast.Name):
+            ls, tests, unk = selection(B)
+            lists |= ls
+            extras += unk
+            for c_, cpol in tests:
+                if cpol and isinstance(c_, ast.BoolOp) and isinstance(c_.op, ast.Or) and len(c_.values) == 2 and \
+                        any(src(v).replace(" ", "") in ("m==0", "0==m") for v in c_.values) and \
+                        any(isinstance(v, ast.Call) and src(v.func) == "self.funcIsNull" and len(v.args) == 1
+                            and src(v.args[0]) == "ddThetaFactor" for v in c_.values):
+                    # the term -m^2 D phi makes a pure-Neumann mode m != 0 well posed unless D vanishes
+                    notes.append("modes m != 0 are kept when the theta term D does not vanish")
+                elif cpol and src(c_).replace(" ", "") in ("m==0", "0==m"):
+                    m_tests.append(c_)
+                else:
+                    extras.append(src(c_)[:60])
+        else:
+            ts = src(B).replace(" ", "")
+            if ts in ("set(lNeumannIdx)&set(uNeumannIdx)", "set(uNeumannIdx)&set(lNeumannIdx)", "set(lNeumannIdx).intersection(uNeumannIdx)",
+                      "set(uNeumannIdx).intersection(lNeumannIdx)", "set(lNeumannIdx).intersection(set(uNeumannIdx))",
+                      "set(uNeumannIdx).intersection(set(lNeumannIdx))"):
+                lists |= set(NEUMANN_LISTS)
+            else:
+                extras.append(src(e)[:60])
+    both = lists == set(NEUMANN_LISTS)
+    texts = [src(e) for e, _ in atoms] + [src(v) for v in loopvars.values()]
+    concerns = bool(lists) or any(n_ in x for x in texts for n_ in tuple(NEUMANN_LISTS) + ("ddThetaFactor",))
+    # AUDIT: the polarity of every atom of the conjunction guarding the raise was followed (nested ifs, not / and / or, named
+    # intermediate values, values bound on the branches of an earlier if); the refusal fires for modes in both lists exactly when
+    # funcIsNull(rFactor) is false
+    if both and null_neg and not null_pos and not m_tests:
+        return "bad", None, notes, True
+    if both and null_pos and not null_neg and not extras and not left_amb and not m_tests:
+        return "ok", None, notes, True
+    if both and null_pos and not null_neg and not extras and not left_amb and m_tests:
+        return "m0", ("modes with Neumann conditions on both boundaries are refused only when the mode number is 0 (`m == 0` selects them, "
+                      "with no alternative on the theta term): a mode m != 0 is made well posed by the term -m^2 D phi only when D does "
+                      "not vanish. With ddThetaFactor identically zero (and C null) the pure-Neumann problem of every mode is singular "
+                      "- defined up to a constant - and is now accepted: the sparse solve returns garbage / NaN instead of the "
+                      "constructor raising"), notes, True
+    return None, None, notes, concerns
+
+
 def refusal(chk):
     """a mode with Neumann conditions on both boundaries and no term in phi has no unique solution: the constructor refuses it.
     Followed: the conjunction of every test the `raise` depends on (nested ifs, loops over the modes, named intermediate values),
@@ -4016,80 +4260,134 @@ def refusal(chk):
     ok = False
     bad = None
     notes = []
+    def branch_values(name, use):
+        """a local bound once on each branch of one `if` (or once before an `if` and once in its body) that precedes the use in an
+        enclosing block: [(test of the if, polarity, value, statement)] - the value the name has when the test has that polarity"""
+        defs = env.bind.get(name, [])
+        if len(defs) != 2 or any(d[2] is None for d in defs) or name in env.mut:
+            return None
+        (o1, s1, v1), (o2, s2, v2) = defs
+        if not (env.order.get(id(use), -1) > o2):
+            return None
+        p1, p2 = parent(s1), parent(s2)
+        if isinstance(p2, ast.If) and p1 is p2 and any(s1 is x for x in p2.body) and any(s2 is x for x in p2.orelse) and \
+                env._dominates(p2, use):
+            return [(p2.test, True, v1, s1, p2), (p2.test, False, v2, s2, p2)]
+        if isinstance(p2, ast.If) and any(s2 is x for x in p2.body) and not p2.orelse and env._dominates(p2, use) and \
+                env._dominates(s1, p2):
+            return [(p2.test, True, v2, s2, p2), (p2.test, False, v1, s1, p2)]
+        return None
+
+    def guard_paths(tests):
+        """the conjunction [(test, polarity, statement)] guarding a raise, with locals expanded; a local defined on the branches of
+        an earlier `if` splits the guard into one conjunction per branch (the branch test joins the conjunction).  A conjunct that
+        tests the non-emptiness of a literally empty collection makes its conjunction infeasible: dropped."""
+        paths = [[]]
+        for t, pol, at in tests:
+            ex = env.x(t, stop=set(COEFF_FUNCS), use=at)
+            amb = sorted(env.amb)
+            alts = [(ex, [])]
+            for nm in amb:
+                bv = branch_values(nm, at)
+                if bv is None or len(alts) > 4:
+                    continue
+                nxt = []
+                for ex_, more in alts:
+                    for bt, bpol, val, st_, ifst in bv:
+                        val_x = env.x(val, stop=set(COEFF_FUNCS), use=st_)
+                        if env.amb:
+                            nxt = None
+                            break
+                        bt_x = env.x(bt, stop=set(COEFF_FUNCS), use=ifst)
+                        if env.amb:
+                            nxt = None
+                            break
+                        nxt.append((_Sub({}, {nm: val_x}).visit(_clone(ex_)), more + _conjuncts(bt_x, bpol)))
+                    if nxt is None:
+                        break
+                if nxt:
+                    alts = nxt
+                    amb = [a_ for a_ in amb if a_ != nm]
+            paths = [p_ + [(ex_, pol, more, tuple(amb))] for p_ in paths for ex_, more in alts]
+        out = []
+        for p_ in paths:
+            atoms_, left = [], set()
+            for ex_, pol, more, amb in p_:
+                atoms_ += _conjuncts(ex_, pol) + more
+                left |= set(amb)
+            dead = False
+            for e, pol in atoms_:
+                B = _nonempty_of(e, pol)
+                if B is not None and isinstance(B, (ast.List, ast.Tuple)) and not B.elts:
+                    dead = True
+            if not dead:
+                out.append((atoms_, left))
+        return out
+
+    def selection(B, var_to=None):
+        """a (nested) selection `[v for v in <list or selection> if <tests>]`: (lists it ranges over / tests membership in, the other
+        tests with the variable renamed to `m`, what was not followed)"""
+        ls, tests, unk = set(), [], []
+        g = B.generators[0]
+        var = g.target.id
+        if not (isinstance(B.elt, ast.Name) and B.elt.id == var):
+            unk.append(f"elements `{src(B.elt)[:30]}` of a selection")
+        if _bare_list(g.iter) in NEUMANN_LISTS:
+            ls.add(_bare_list(g.iter))
+        elif isinstance(g.iter, (ast.ListComp, ast.SetComp, ast.GeneratorExp)) and len(g.iter.generators) == 1 and \
+                isinstance(g.iter.generators[0].target, ast.Name):
+            l2, t2, u2 = selection(g.iter)
+            ls |= l2
+            tests += t2
+            unk += u2
+        elif not mt._tracked_in(g.iter):
+            unk.append(f"selection over `{src(g.iter)[:40]}`")
+        for c_, cpol in [a_ for i_ in g.ifs for a_ in _conjuncts(i_, True)]:
+            if cpol and isinstance(c_, ast.Compare) and len(c_.ops) == 1 and isinstance(c_.ops[0], ast.In) and src(c_.left) == var \
+                    and _bare_list(c_.comparators[0]) in NEUMANN_LISTS:
+                ls.add(_bare_list(c_.comparators[0]))
+            else:
+                tests.append((_Sub({var: "m"}, {}).visit(_clone(c_)), cpol))
+        return ls, tests, unk
+
+    m0_only = None
+    unread = []
     for r in raises:
-        atoms = []
+        tests_ = []
         loopvars = {}
         cur, p = r, parent(r)
         while p is not None and p is not fn:
             if isinstance(p, ast.If):
-                pol = any(cur is x for x in p.body)
-                atoms += _conjuncts(env.x(p.test, stop=set(COEFF_FUNCS), use=p), pol)
+                tests_.append((p.test, any(cur is x for x in p.body), p))
             elif isinstance(p, ast.For) and isinstance(p.target, ast.Name):
                 loopvars[p.target.id] = env.x(p.iter, use=p)
             cur, p = p, parent(p)
-        null_pos = null_neg = False
-        lists = set()
-        extras = []
-        for e, pol in atoms:
-            if isinstance(e, ast.Call) and src(e.func) == "self.funcIsNull" and len(e.args) == 1 and src(e.args[0]) == "rFactor":
-                null_pos |= pol
-                null_neg |= not pol
-                continue
-            if pol and isinstance(e, ast.Compare) and len(e.ops) == 1 and isinstance(e.ops[0], ast.In) and isinstance(e.left, ast.Name) \
-                    and e.left.id in loopvars and _bare_list(e.comparators[0]) in NEUMANN_LISTS:
-                # raise inside a loop over the modes / over one of the lists
-                it = loopvars[e.left.id]
-                lists.add(_bare_list(e.comparators[0]))
-                if _bare_list(it) in NEUMANN_LISTS:
-                    lists.add(_bare_list(it))
-                elif not mt._tracked_in(it):
-                    extras.append(f"loop over `{src(it)[:40]}`")
-                continue
-            B = _nonempty_of(e, pol)
-            if B is None:
-                extras.append(src(e)[:60])
-                continue
-            if isinstance(B, (ast.ListComp, ast.SetComp, ast.GeneratorExp)) and len(B.generators) == 1 and isinstance(B.generators[0].target, ast.Name):
-                g = B.generators[0]
-                var = g.target.id
-                if _bare_list(g.iter) in NEUMANN_LISTS:
-                    lists.add(_bare_list(g.iter))
-                elif not mt._tracked_in(g.iter):
-                    extras.append(f"selection over `{src(g.iter)[:40]}`")
-                for c_, cpol in [a_ for i_ in g.ifs for a_ in _conjuncts(i_, True)]:
-                    if cpol and isinstance(c_, ast.Compare) and len(c_.ops) == 1 and isinstance(c_.ops[0], ast.In) and src(c_.left) == var \
-                            and _bare_list(c_.comparators[0]) in NEUMANN_LISTS:
-                        lists.add(_bare_list(c_.comparators[0]))
-                    elif cpol and isinstance(c_, ast.BoolOp) and isinstance(c_.op, ast.Or) and len(c_.values) == 2 and \
-                            any(src(v).replace(" ", "") in (f"{var}==0", f"0=={var}") for v in c_.values) and \
-                            any(isinstance(v, ast.Call) and src(v.func) == "self.funcIsNull" and len(v.args) == 1
-                                and src(v.args[0]) == "ddThetaFactor" for v in c_.values):
-                        # the term -m^2 D phi makes a pure-Neumann mode m != 0 well posed unless D vanishes
-                        notes.append("modes m != 0 are kept when the theta term D does not vanish")
-                    else:
-                        extras.append(src(c_)[:60])
-            else:
-                ts = src(B).replace(" ", "")
-                if ts in ("set(lNeumannIdx)&set(uNeumannIdx)", "set(uNeumannIdx)&set(lNeumannIdx)", "set(lNeumannIdx).intersection(uNeumannIdx)",
-                          "set(uNeumannIdx).intersection(lNeumannIdx)", "set(lNeumannIdx).intersection(set(uNeumannIdx))",
-                          "set(uNeumannIdx).intersection(set(lNeumannIdx))"):
-                    lists |= set(NEUMANN_LISTS)
-                else:
-                    extras.append(src(e)[:60])
-        both = lists == set(NEUMANN_LISTS)
-        # AUDIT: the polarity of every atom of the conjunction guarding the raise was followed (nested ifs, not / and / or, named
-        # intermediate values); the refusal fires for modes in both lists exactly when funcIsNull(rFactor) is false
-        if both and null_neg and not null_pos:
-            bad = ("pure-Neumann modes are refused when the reaction term does NOT vanish and accepted when it does: the singular "
-                   "problems go through")
-        elif both and null_pos and not null_neg and not extras and not env.amb:
-            ok = True
+        for atoms, left_amb in guard_paths(tests_):
+            v_, m0_, note_, concerns = _refusal_path(atoms, left_amb, loopvars, mt, selection)
+            if v_ == "bad":
+                bad = ("pure-Neumann modes are refused when the reaction term does NOT vanish and accepted when it does: the singular "
+                       "problems go through")
+            elif v_ == "ok":
+                ok = True
+                notes += note_
+            elif v_ == "m0":
+                m0_only = m0_
+            elif concerns:
+                unread.append(src(r)[:40])
+    # AUDIT: "only m = 0 is refused" is true of the code when the guard of the raise was followed completely (every conjunct read, no
+    # unresolved local), the collection it tests is the selection of the modes in both Neumann lists restricted by `m == 0` alone
+    # (no alternative `or funcIsNull(ddThetaFactor)`), and no other raise / assert / call of the constructor that concerns the Neumann
+    # lists or the theta term is left unread (it could refuse the remaining modes): decided below, once those are collected
     # AUDIT: "no refusal is left" needs every place the check may have moved to to have been looked at: the constructor with its new
     # helpers written back; no call left in it that receives a Neumann list (a validation helper that could not be written back)
     BUILTIN_READERS = ("len", "set", "list", "tuple", "frozenset", "sorted", "any", "all", "bool", "slice", "range", "enumerate", "zip")
     handed_over = [c for c in ast.walk(fn) if isinstance(c, ast.Call) and src(c.func) not in BUILTIN_READERS and not src(c.func).startswith(("np.", "numpy."))
                    and any(isinstance(x, ast.Name) and x.id in NEUMANN_LISTS for a_ in list(c.args) + [k.value for k in c.keywords]
                            for x in ast.walk(a_))]
+    asserts = [n for n in ast.walk(fn) if isinstance(n, ast.Assert) and
+               ({x.id for x in ast.walk(n.test) if isinstance(x, ast.Name)} & (set(NEUMANN_LISTS) | {"ddThetaFactor"}))]
+    if not ok and not bad and m0_only and not unread and not handed_over and not asserts:
+        bad = m0_only
     if not raises and not handed_over and \
             not any(isinstance(n, ast.Assert) and ({x.id for x in ast.walk(n.test) if isinstance(x, ast.Name)} & set(NEUMANN_LISTS))
                     for n in ast.walk(fn)):
